@@ -307,7 +307,11 @@ def run_unit(u: Unit, repo: Repo, timeout_ms=10000, seed=0) -> UnitResult:
             res.unsupported.append(ctx.unsupported)
             continue
         # vacuity guard: the path condition must be satisfiable (a canary `False` must be refuted)
-        live = ctx._check() != z3.unsat
+        try:
+            ctx.solver.set('timeout', min(ctx.timeout_ms, 5000))      # 'unknown' counts as live anyway: no point in waiting long for it
+            live = ctx._check() != z3.unsat
+        finally:
+            ctx.solver.set('timeout', ctx.timeout_ms)
         if live:
             res.live_paths += 1
         h = ctx.harness
